@@ -143,6 +143,24 @@ class Ctx:
         return quick if self.quick else thorough
 
 
+THREAD_COUNTS = os.environ.get("VERIF_THREAD_COUNTS", "1") == "1"
+_THREAD_CYCLE = None
+
+
+def _set_threads(i):
+    """numba.set_num_threads(cycle[i]) with cycle = (max, 1, 3, max, 2) clipped to what NUMBA_NUM_THREADS allows."""
+    global _THREAD_CYCLE
+    try:
+        import numba
+
+        if _THREAD_CYCLE is None:
+            mx = int(numba.config.NUMBA_NUM_THREADS)
+            _THREAD_CYCLE = [min(x, mx) for x in (mx, 1, 3, mx, 2)]
+        numba.set_num_threads(_THREAD_CYCLE[i % len(_THREAD_CYCLE)])
+    except Exception:  # noqa: BLE001
+        pass
+
+
 class Monitor:
     """Collects what the monitors observed and decides the three-valued verdict.
 
@@ -179,6 +197,16 @@ class Monitor:
         self._case = case
         self._case_nontrivial = False
         self.n_cases += 1
+        # process-wide state a caller may change between two calls into the library: Numba's thread count (numba.set_num_threads).
+        # It starts at a value derived from the case and moves on every 7th monitored call, so that sketches are built, filled,
+        # merged and queried under different and changing counts (1, 2, 3, the maximum); replaying a case replays the same counts.
+        self._api_n = 0
+        if THREAD_COUNTS:
+            try:
+                self._thread_phase = int(digest_of(case)[:6], 16)
+            except Exception:  # noqa: BLE001
+                self._thread_phase = self.n_cases
+            _set_threads(self._thread_phase)
 
     def nontrivial(self, flag=True):
         if flag:
@@ -241,6 +269,11 @@ class Monitor:
 
     def api(self, fn, *args, **kw):
         """Call the code under test; an exception out of a valid call is a violation."""
+        if THREAD_COUNTS:
+            self._api_n = getattr(self, "_api_n", 0) + 1
+            if self._api_n % 7 == 0:
+                _set_threads(getattr(self, "_thread_phase", 0) + self._api_n // 7)
+                self.counters["numba_thread_count_changes"] += 1
         try:
             return fn(*args, **kw)
         except (CaseAbort, StopRun):
